@@ -797,7 +797,7 @@ func (g *c13Gen_) fileLeaf(t *c13Type) hx.JV {
 		g.count("leaf_relative_path")
 		return hx.JStr("w/" + name)
 	case c == 39 && g.r.Intn(2) == 0:
-		if len(g.dirs) > 0 && g.r.Intn(2) == 0 && os.Getenv("C13_OVERLAP") != "" {
+		if len(g.dirs) > 0 && g.r.Intn(2) == 0 {
 			// a file inside a directory that is itself an (earlier) output
 			g.count("leaf_inside_directory_output")
 			return hx.JStr(hx.Pick(g.r, g.dirs) + "/inner.txt")
@@ -1332,6 +1332,14 @@ func c13OracleCase(scratch string, n int, f []string) string {
 		class := s.kind
 		if l.ctx != "" {
 			class = l.ctx
+		}
+		for _, o := range c.leaves {
+			// two outputs, one naming a directory and the other something
+			// inside it
+			if o != l && (strings.HasPrefix(l.src, strings.TrimRight(o.src, "/")+"/") ||
+				strings.HasPrefix(o.src, strings.TrimRight(l.src, "/")+"/")) && o.src != "" && l.src != "" {
+				class = "file_inside_directory_output"
+			}
 		}
 		dest := root + "/ps/outs/" + l.derived
 		if got := c13Sig(dest); got != s.sig {
